@@ -192,17 +192,23 @@ func (y *Yaml) IsMap() bool {
 	return y.data.Kind == yaml.MappingNode
 }
 
-// Get all the keys of the map
+// Get all the keys of the map, in the order they are written in the document
 func (y *Yaml) GetMapKeys() ([]string, error) {
 	m, err := y.Map()
 
 	if err != nil {
 		return nil, err
 	}
-	keys := make([]string, 0)
-	for k := range m {
-		keys = append(keys, k)
-
+	// iterate the mapping node rather than the Go map: map iteration order is random, and the variables and
+	// rules generated for a profile must not depend on it
+	keys := make([]string, 0, len(m))
+	seen := make(map[string]bool, len(m))
+	for i := 0; i+1 < len(y.data.Content); i += 2 {
+		k := y.data.Content[i].Value
+		if !seen[k] {
+			seen[k] = true
+			keys = append(keys, k)
+		}
 	}
 	return keys, nil
 }
